@@ -208,8 +208,17 @@ func (e *Engine) callValue(s *State, fr *Frame, dst *ssa.Call, cc *ssa.CallCommo
 	}
 	switch f := fnv.(type) {
 	case *Builtin:
+		mergeN0 := 0 // merge_coord.go
+		if s.assumes != nil {
+			mergeN0 = s.assumes.n
+		}
 		rv, succ, done := e.callBuiltin(s, fr, dst, f.Name, cc, args, site)
 		if done {
+			if f.Name == "append" && len(succ) == 2 && e.mergeOn() { // merge_coord.go: in-place / reallocating append rejoined
+				if m := e.mergeStates(mergeN0, succ); m != nil {
+					return []*State{m}, true
+				}
+			}
 			return succ, true
 		}
 		setResult(rv)
@@ -294,6 +303,14 @@ func (e *Engine) callFunction(s *State, fr *Frame, dst *ssa.Call, f *ssa.Functio
 		setResult(v)
 		return nil, false
 	}
+	if coordModelsOn() {
+		// sort / time models of the coordinator checks (models_coord.go): property-scoped, because other checks were
+		// validated with their own treatment of time.Time (spec/time_ops.spec) and sort.Slice (bufmodel.go)
+		if v, handled := e.modelCoordCall(s, fr, key, f, args, site); handled {
+			setResult(v)
+			return nil, false
+		}
+	}
 	if v, handled := e.modelBuf(s, fr, dst, key, f, args, site); handled {
 		setResult(v)
 		return nil, false
@@ -373,6 +390,9 @@ func (e *Engine) callFunction(s *State, fr *Frame, dst *ssa.Call, f *ssa.Functio
 	if dst == nil {
 		// deferred call: result ignored; mark so Return does not bind
 		nf.callSite = nil
+	}
+	if e.mergeOn() && dst != nil { // merge_coord.go: run the callee to its returns and merge them
+		return e.inlineMerged(s, len(s.frames)-1, fr)
 	}
 	return nil, false
 }
@@ -519,6 +539,7 @@ func (e *Engine) modularCall(s *State, fr *Frame, c *FuncContract, key string, s
 		// constructor contract: every pointer result is a newly allocated object (distinct from all existing ones)
 		rv = e.freshenPointerResults(rv)
 	}
+	rv = e.coordFreshResult(s, c, sig, rv) // models_coord.go: `returns_fresh`
 	// bind results
 	var results []Value
 	if tv, ok := rv.(*Tuple); ok {
